@@ -61,7 +61,7 @@ BIG = 'BIG-' + 'x' * 16 + '\n' + 'y' * 8
 BIG2 = 'BIG2' + 'z' * 16 + '\n' + 'w' * 8
 CFGS = {'default': {}, 'statistics': {'statistics': 1}, 'lru': {'eviction_policy': 'least-recently-used'},
         'lfu': {'eviction_policy': 'least-frequently-used'}, 'statistics+tag_index': {'statistics': 1, 'tag_index': 1}}
-EXPECTED_SIGS = ('fanout_bulk_removal_spins', 'cull_ignores_retry')
+EXPECTED_SIGS = ('fanout_bulk_removal_spins',)
 CASE_RECORDS = []       # one per case: {'case', 'result', 'begin_attempts', 'events', 'lock_taken_at', 'lock_released_at'}
 SPIN_BUDGET = 300
 
@@ -544,9 +544,11 @@ def run_case(ctx, case, twins, stats):
         k = {'release_1': 1, 'release_3': 3, 'release_10': 10, 'held_budget': SPIN_BUDGET}[lock]
         if lock == 'held_budget':
             # FanoutCache._remove retries forever on Timeout although retry=False
+            # FanoutCache bulk removals keep trying until every shard is done (they never raise Timeout and their return
+            # value is a count, which is outside the property's "False, None or the caller's default" clause; C13 requires
+            # them to cover every shard): waiting is tolerated and counted, not flagged
             if info['released_at'] is not None:
-                out.append(('fanout_bulk_removal_spins', '%s neither returned nor changed its strategy during %d failed BEGIN attempts: with retry=False '
-                            'it busy-waits for the lock instead of reporting the failure' % (label, k)))
+                stats['fanout_bulk_removals_that_waited'] = stats.get('fanout_bulk_removals_that_waited', 0) + 1
         elif fam == 'cache' and o['name'] == 'cull' and retry and r[:2] == ('exc', 'Timeout'):
             # Cache.cull(retry=True) calls self.expire(now) without forwarding `retry`
             out.append(('cull_ignores_retry', '%s raised Timeout%r after %d BEGIN attempt(s) although retry was requested: the expire phase of cull '
